@@ -1,27 +1,47 @@
 #!/venv/bin/python
-"""Apply a change to /repo's working tree, run checks, undo the change.
-usage: tools/try_mutant.py (--revert <commit> | --patch <file>) <ID> [<ID> ...]   [--tier quick]
-The change is never committed; /repo is restored with `git checkout -- .` afterwards."""
+"""Run checks against a changed copy of the repository.
+usage: tools/try_mutant.py (--revert <commit> | --patch <file>) <ID> [<ID> ...]  [--tier quick] [--inplace]
+
+Default: the change is applied in a scratch worktree of /repo HEAD (/var/tmp/mutant_wt_<pid>) and the
+checks run with VERIF_REPO pointing at it and evidence redirected to a scratch directory, so /repo and
+/verif/evidence are untouched; the worktree is removed afterwards.
+--inplace: apply to /repo's working tree (git apply), run, undo with `git checkout -- .` (never committed)."""
+import os
+import shutil
 import subprocess
 import sys
 
 args = sys.argv[1:]
-kind, what = args[0], args[1]
+kind, what = args[0], os.path.abspath(args[1]) if args[0] == "--patch" else args[1]
 ids = [a for a in args[2:] if not a.startswith("--")]
+tier = "thorough" if "--thorough" in args else "quick"
+inplace = "--inplace" in args
+wt = "/repo" if inplace else "/var/tmp/mutant_wt_%d" % os.getpid()
+env = dict(os.environ)
 try:
+    if not inplace:
+        subprocess.check_call(["git", "-C", "/repo", "worktree", "add", "-q", "--detach", wt, "HEAD"])
+        env["VERIF_REPO"] = wt
+        env["VERIF_EVIDENCE_DIR"] = wt + "_evidence"
     if kind == "--revert":
-        subprocess.check_call(["git", "-C", "/repo", "revert", "--no-commit", what])
-        subprocess.check_call(["git", "-C", "/repo", "reset", "-q"])       # keep the change unstaged
+        subprocess.check_call(["git", "-C", wt, "revert", "--no-commit", what])
+        subprocess.check_call(["git", "-C", wt, "reset", "-q"])       # keep the change unstaged
     else:
-        subprocess.check_call(["git", "-C", "/repo", "apply", what])
+        subprocess.check_call(["git", "-C", wt, "apply", what])
     for pid in ids:
-        r = subprocess.run(["/verif/check", pid, "--tier", "quick"], stdout=subprocess.PIPE, stderr=subprocess.STDOUT,
-                           text=True)
+        r = subprocess.run(["/verif/check", pid, "--tier", tier], stdout=subprocess.PIPE, stderr=subprocess.STDOUT,
+                           text=True, env=env)
         lines = r.stdout.strip().splitlines()
         viol = [l for l in lines if l.startswith("REJECTED")]
-        print("==", pid, "exit", r.returncode, "|", lines[-1] if lines else "")
+        print("==", pid, "exit", r.returncode, "|", lines[-1][:200] if lines else "")
         for l in viol[:6]:
             print("   ", l[:260])
+        sys.stdout.flush()
 finally:
-    subprocess.call(["git", "-C", "/repo", "checkout", "--", "."])
-    subprocess.call(["git", "-C", "/repo", "status", "--short"])
+    if inplace:
+        subprocess.call(["git", "-C", "/repo", "checkout", "--", "."])
+        subprocess.call(["git", "-C", "/repo", "status", "--short"])
+    else:
+        subprocess.call(["git", "-C", "/repo", "worktree", "remove", "--force", wt])
+        shutil.rmtree(wt, ignore_errors=True)
+        shutil.rmtree(wt + "_evidence", ignore_errors=True)
